@@ -21,7 +21,8 @@ MOD = "vf.props.c07"
 
 NAMES = ["", "a", "A", "b", "ß", "SS"]          # index len(NAMES) == "no targetname key at all" where a pre-state is built
 ABSENT = len(NAMES)
-CLASSES = ["c", "C", "d", ""]
+CLASSES = ["c", "C", "d", "", "a"]         # "a" is also a targetname of the vocabulary (a search term may match a name and a class)
+CLS_ABSENT = len(CLASSES)                   # pre-state only: an Entity() built without any classname key
 NSPELL = ["targetname", "TargetName"]
 CSPELL = ["classname", "ClassName"]
 BYSTANDER = [None, "a", "A", "ss", "", ABSENT]    # None: no bystander; ABSENT: bystander without a targetname key
@@ -35,7 +36,7 @@ META = {
                   "srctools.vmf:CopySet.__iter__", "srctools.vmf:Entity.__init__", "srctools.vmf:Entity.__setitem__",
                   "srctools.vmf:Entity.__delitem__", "srctools.vmf:Entity.__getitem__", "srctools.vmf:Entity.pop", "srctools.vmf:Entity.clear",
                   "srctools.vmf:Entity.make_unique", "srctools.vmf:Entity.remove", "srctools.vmf:Entity.copy"],
-    "bounds": "names by index from ['', 'a', 'A', 'b', 'ß', 'SS'] (+ key absent), classes from ['c', 'C', 'd', ''] (+ 'worldspawn' for the "
+    "bounds": "names by index from ['', 'a', 'A', 'b', 'ß', 'SS'] (+ key absent), classes from ['c', 'C', 'd', '', 'a'] (+ no classname key on a hand-built Entity, + 'worldspawn' for the "
               "map's own entity), key spellings targetname|TargetName, classname|ClassName; pre-state = one subject entity (5 ways of "
               "being in / out of the map) + at most one bystander; 1 operation (quick) / 2 operations (thorough) out of 22 kinds; "
               "iteration: 3 members, mutation at a solver-chosen step; observed with 18 exact and 6 wildcard search strings",
@@ -299,11 +300,14 @@ def _build(sk, sc, sn, ssp, by, kinds="", scs="", bys=""):
             v.create_ent("c", targetname=byname)
     if kind == 4:
         return v, other, v.spawn          # sc/sn/ssp are not looked at
-    ci = pick(list(range(len(CLASSES))), sc)
+    ci = pick(list(range(len(CLASSES) + 1)), sc)
     assume(not scs or str(ci) in scs)
-    cls = CLASSES[ci]
     name = pick(NAMES + [ABSENT], sn)
-    keys = {CSPELL[0]: cls}
+    if ci == CLS_ABSENT:
+        assume(kind != 0)       # create_ent always takes a class; Entity(vmf, keys=...) may come without one
+        keys = {}
+    else:
+        keys = {CSPELL[0]: CLASSES[ci]}
     if name != ABSENT:
         keys[NSPELL[1 if ssp == 1 else 0]] = name
     if kind == 0:
@@ -451,20 +455,24 @@ def h_parse(wc: int, wn: int, ec: int, en: int, esp: int) -> None:
     from srctools.keyvalues import Keyvalues
     wcls = pick(["worldspawn", "WorldSpawn", "c", ABSENT], wc)
     wname = pick(NAMES + [ABSENT], wn)
-    ecls = pick(CLASSES + ["worldspawn"], ec)
+    ecls = pick(CLASSES + ["worldspawn", ABSENT], ec)
     ename = pick(NAMES + [ABSENT], en)
     world = [Keyvalues("id", "1")]
     if wcls != ABSENT:
         world.append(Keyvalues("classname", wcls))
     if wname != ABSENT:
         world.append(Keyvalues("targetname", wname))
-    ent = [Keyvalues("id", "2"), Keyvalues(CSPELL[1 if esp == 1 else 0], ecls)]
+    ent = [Keyvalues("id", "2")]
+    if ecls != ABSENT:
+        ent.append(Keyvalues(CSPELL[1 if esp == 1 else 0], ecls))
     if ename != ABSENT:
         ent.append(Keyvalues(NSPELL[1 if esp == 1 else 0], ename))
     tree = Keyvalues.root(Keyvalues("world", world), Keyvalues("entity", ent))
     v = vmf.VMF.parse(tree)
     check(len(v.entities) == 1, "entity lost in parse")
     _inv(v, "after parse", "all")
+    v.entities[0]["classname"] = "d"
+    _inv(v, "after parse + reclass", "all")
     v.entities[0].remove()
     _inv(v, "after parse + remove", "all")
 
@@ -481,13 +489,13 @@ STEP2_OPS = ["set_name", "set_class", "del_name", "del_class", "pop_name", "pop_
 
 def obligations(tier):
     quick = tier == "quick"
-    pre = {"scs": "13", "bys": "023"} if quick else {}
+    pre = {"scs": "1345", "bys": "023"} if quick else {}
     nops1 = [dict({"nops": 1, "first": k}, **pre) for k in range(len(OPS))]
     obls = [
         Obl("step1", MOD, "h_step", slices=nops1, budget_s=1500, per_path_s=60,
             desc="API-built pre-state (5 subject kinds x class x name x key spelling x bystander) + one arbitrary operation: "
                  "by_class/by_target sound and complete, search() == scan, worldspawn pinned",
-            bound="1 operation, sliced by operation kind" + ("; subject class in {'C',''}, bystander in {none,'A','ss'}" if quick else "")),
+            bound="1 operation, sliced by operation kind" + ("; subject class in {'C','','a',no key}, bystander in {none,'A','ss'}" if quick else "")),
         Obl("step1.witness", MOD, "h_step_w", slices=[dict({"nops": 1, "first": _idx("set_name")}, **pre)], budget_s=120, per_path_s=60, witness=True),
         Obl("worldspawn_class", MOD, "h_step", slices=[{"nops": 1, "first": _idx(o), "kinds": "4"} for o in ("set_class", "update_class", "del_class")],
             budget_s=300, per_path_s=60,
